@@ -35,10 +35,12 @@ class DB:
     def refresh(self):
         c = self.conn()
         for typ, name, tbl, root, sql in sqlfmt.master(c):
-            if typ == "table" and name in self.tables:
-                self.tables[name]["root"] = root
-            if typ == "index" and name in self.indexes:
-                self.indexes[name]["root"] = root
+            for n in self.tables:
+                if typ == "table" and n.lower() == name.lower():
+                    self.tables[n]["root"] = root
+            for n in self.indexes:
+                if typ == "index" and n.lower() == name.lower():
+                    self.indexes[n]["root"] = root
         c.close()
         self.data = open(self.path, "rb").read()
 
@@ -57,6 +59,8 @@ def deep(wd, rng, page_size=512, rows=1500, tag="deep", churn=True, auto_vacuum=
     c.execute("CREATE INDEX t_c_desc ON t(c DESC)")
     c.execute("CREATE INDEX t_bn_a ON t(b COLLATE NOCASE, a DESC)")
     c.execute("CREATE INDEX t_br ON t(b COLLATE RTRIM)")
+    c.execute("CREATE INDEX t_bn_b ON t(b COLLATE NOCASE, b)")
+    c.execute("CREATE INDEX t_br_d ON t(b COLLATE RTRIM DESC, d)")
     c.execute("BEGIN")
     ids = list(range(1, rows + 1))
     rng.shuffle(ids)
@@ -81,6 +85,8 @@ def deep(wd, rng, page_size=512, rows=1500, tag="deep", churn=True, auto_vacuum=
     db.indexes["t_c_desc"] = dict(table="t", cols=[("c", "", True)])
     db.indexes["t_bn_a"] = dict(table="t", cols=[("b", "nocase", False), ("a", "", True)])
     db.indexes["t_br"] = dict(table="t", cols=[("b", "rtrim", False)])
+    db.indexes["t_bn_b"] = dict(table="t", cols=[("b", "nocase", False), ("b", "", False)])
+    db.indexes["t_br_d"] = dict(table="t", cols=[("b", "rtrim", True), ("d", "", False)])
     db.refresh()
     return db
 
@@ -91,6 +97,7 @@ def norowid(wd, rng, page_size=512, rows=600, tag="wr"):
     c.execute("CREATE TABLE w(x TEXT, a TEXT, b INT, y, PRIMARY KEY(a, b DESC)) WITHOUT ROWID")
     c.execute("CREATE INDEX w_y ON w(y)")
     c.execute("CREATE INDEX w_xa ON w(x, a COLLATE NOCASE)")
+    c.execute("CREATE INDEX w_yb ON w(y, a COLLATE BINARY)")
     c.execute("BEGIN")
     seen = set()
     for n in range(rows):
@@ -105,6 +112,7 @@ def norowid(wd, rng, page_size=512, rows=600, tag="wr"):
     db.tables["w"] = dict(kind="norowid", cols=["x", "a", "b", "y"], pk=[("a", "", False), ("b", "", True)])
     db.indexes["w_y"] = dict(table="w", cols=[("y", "", False)])
     db.indexes["w_xa"] = dict(table="w", cols=[("x", "", False), ("a", "nocase", False)])
+    db.indexes["w_yb"] = dict(table="w", cols=[("y", "", False), ("a", "binary", False)])
     db.refresh()
     return db
 
@@ -189,14 +197,14 @@ def tiny(wd, rng, page_size=1024, tag="tiny"):
     return db
 
 
-def corpus(run, name, which=("deep", "wr", "ipk", "ovf", "mix", "tiny")):
+def corpus(run, name, which=("deep", "wr", "ipk", "ovf", "mix", "tiny", "misc", "thr"), deep_rows=None):
     rng = random.Random(run.seed * 7919 + 13)
     wd = os.path.join(core.WORK, name)
     os.makedirs(wd, exist_ok=True)
     dbs = []
     quick = run.tier == "quick"
     if "deep" in which:
-        dbs.append(deep(wd, rng, 512, 4000 if quick else 20000))
+        dbs.append(deep(wd, rng, 512, deep_rows or (4000 if quick else 20000)))
         if not quick:
             dbs.append(deep(wd, rng, 1024, 3000, tag="deep1k"))
             dbs.append(deep(wd, rng, 512, 1500, tag="deepav", auto_vacuum="FULL"))
@@ -213,6 +221,15 @@ def corpus(run, name, which=("deep", "wr", "ipk", "ovf", "mix", "tiny")):
         dbs.append(mixed(wd, rng, 512, 500 if quick else 3000))
     if "tiny" in which:
         dbs.append(tiny(wd, rng))
+    if "thr" in which:
+        dbs.append(thresholds_db(wd, rng, 512))
+        if not quick:
+            for u in (1024, 4096, 65536):
+                dbs.append(thresholds_db(wd, rng, u, tag="thr"))
+    if "misc" in which:
+        dbs.append(misc(wd, rng, 512, 300 if quick else 2500))
+        if not quick:
+            dbs.append(misc(wd, rng, 4096, 1500, tag="misc4k"))
     return dbs
 
 
@@ -225,3 +242,70 @@ def describe(dbs):
             d["trees"][n] = {"depth": sh["depth"], "pages": len(sh["pages"]), "interior": len(sh["interior"])}
         out.append(d)
     return out
+
+
+def misc(wd, rng, page_size=512, rows=300, tag="misc"):
+    """schema features: partial / expression / unique indexes, ALTER ADD COLUMN defaults, quoted and
+    mixed-case names, WITHOUT ROWID with the PK not first and spelled in another case, text PKs"""
+    path = os.path.join(wd, "%s-%d.db" % (tag, page_size))
+    c = _mk(path, page_size)
+    c.execute('CREATE TABLE Mc(Id INTEGER PRIMARY KEY, Name TEXT COLLATE NOCASE, val REAL, n INT DEFAULT 7, "we ird" TEXT DEFAULT \'dd\')')
+    c.execute("CREATE INDEX mc_part ON Mc(val) WHERE n > 3")
+    c.execute("CREATE INDEX mc_expr ON Mc(n + 1, Name)")
+    c.execute("CREATE UNIQUE INDEX mc_u ON Mc(Name, Id)")
+    c.execute("CREATE TABLE Wc(Name TEXT, Val INTEGER, x, PRIMARY KEY (val, name)) WITHOUT ROWID")
+    c.execute("CREATE INDEX wc_x ON Wc(x DESC)")
+    c.execute("CREATE TABLE tp(k TEXT PRIMARY KEY, v)")
+    c.execute("CREATE TABLE tn(k TEXT COLLATE NOCASE PRIMARY KEY, v) WITHOUT ROWID")
+    c.execute("BEGIN")
+    for n in range(rows):
+        c.execute("INSERT INTO Mc VALUES(?,?,?,?,?)", (n * 5 - 300, rng.choice(WORDS) + str(n % 9), rng.choice([float(n % 17), n / 4.0, None, 2.0 ** 53]),
+                                                      n % 8, rng.choice(WORDS)))
+        c.execute("INSERT OR IGNORE INTO Wc VALUES(?,?,?)", (rng.choice(WORDS) + str(n % 5), rng.randint(-20, 20), rand_value(rng)))
+        c.execute("INSERT OR IGNORE INTO tp VALUES(?,?)", (rng.choice(WORDS) + str(n % 13), n))
+        c.execute("INSERT OR IGNORE INTO tn VALUES(?,?)", (rng.choice(WORDS) + str(n % 13), n))
+    c.execute("COMMIT")
+    c.execute("ALTER TABLE Mc ADD COLUMN late TEXT DEFAULT 'x'")
+    c.execute("ALTER TABLE Wc ADD COLUMN late2 DEFAULT 12")
+    c.execute("INSERT INTO Mc VALUES(100001, 'tail', 1.5, 2, 'w', 'given')")
+    c.execute("INSERT INTO Wc VALUES('tailname', 999, 'x', 'given2')")
+    c.close()
+    db = DB(path, page_size, tag)
+    db.tables["Mc"] = dict(kind="ipk", cols=["Id", "Name", "val", "n", '"we ird"', "late"])
+    db.tables["Wc"] = dict(kind="norowid", cols=["Name", "Val", "x", "late2"], pk=[("Val", "", False), ("Name", "", False)])
+    db.tables["tp"] = dict(kind="rowid", cols=["k", "v"], pkindex="sqlite_autoindex_tp_1")
+    db.tables["tn"] = dict(kind="norowid", cols=["k", "v"], pk=[("k", "nocase", False)])
+    db.indexes["mc_part"] = dict(table="Mc", cols=[("val", "", False)], where="n > 3")
+    db.indexes["mc_expr"] = dict(table="Mc", cols=[("n + 1", "", False), ("Name", "nocase", False)])
+    db.indexes["mc_u"] = dict(table="Mc", cols=[("Name", "nocase", False), ("Id", "", False)])
+    db.indexes["wc_x"] = dict(table="Wc", cols=[("x", "", True)])
+    db.indexes["sqlite_autoindex_tp_1"] = dict(table="tp", cols=[("k", "", False)])
+    db.refresh()
+    return db
+
+
+def thresholds_db(wd, rng, page_size=512, tag="thr"):
+    """one row per payload length in a dense window around every local/overflow
+    threshold (X, M, X + n(U-4)) for table and index cells"""
+    path = os.path.join(wd, "%s-%d.db" % (tag, page_size))
+    c = _mk(path, page_size)
+    c.execute("CREATE TABLE th(a, b)")
+    c.execute("CREATE TABLE thw(k INT, v, PRIMARY KEY(k)) WITHOUT ROWID")
+    lens = set()
+    for idx in (False, True):
+        for t in sqlfmt.thresholds(page_size, idx):
+            for d in range(-9, 3):
+                if 0 <= t + d <= 4 * page_size + 40:
+                    lens.add(t + d)
+    c.execute("BEGIN")
+    for n, l in enumerate(sorted(lens)):
+        blob = bytes([(n + i) % 253 for i in range(l)])
+        c.execute("INSERT INTO th VALUES(?, ?)", (blob, n))
+        c.execute("INSERT INTO thw VALUES(?, ?)", (n, blob))
+    c.execute("COMMIT")
+    c.close()
+    db = DB(path, page_size, tag)
+    db.tables["th"] = dict(kind="rowid", cols=["a", "b"])
+    db.tables["thw"] = dict(kind="norowid", cols=["k", "v"], pk=[("k", "", False)])
+    db.refresh()
+    return db
